@@ -264,6 +264,27 @@ def run_property(pid, tier, seed):
     all_found = {}    # sig -> (size, case, msg, part, shard, n)
     exhaustive_parts = []
     try:
+        # regression tier: committed replay files of earlier (repaired) findings, run without Hypothesis
+        regdir = os.path.join(VERIF_ROOT, 'regressions', pid)
+        regfiles = sorted(os.listdir(regdir)) if os.path.isdir(regdir) else []
+        pmap = {p.name: p for p in parts}
+        os.environ['SCMOVERIF_SCRATCH'] = os.path.join(scratch_root, 'regress')
+        os.makedirs(os.environ['SCMOVERIF_SCRATCH'], exist_ok=True)
+        for fn in regfiles:
+            data = json.load(open(os.path.join(regdir, fn)))
+            part = pmap.get(data.get('part'))
+            if part is None:
+                errors.append('regression %s names unknown part %r' % (fn, data.get('part')))
+                continue
+            out = part.evaluate(data['case'])
+            total.labels['regression cases'] = total.labels.get('regression cases', 0) + 1
+            for sig, msg in out.violations:
+                if sig in known:
+                    total.known_hits[sig] = total.known_hits.get(sig, 0) + 1
+                    continue
+                cur = all_found.get(sig)
+                if cur is None:
+                    all_found[sig] = (len(canon(data['case'])), data['case'], msg, part, 0, 1)
         ctx = multiprocessing.get_context('fork')
         with ProcessPoolExecutor(max_workers=NPROC, mp_context=ctx) as ex:
             futures = []
